@@ -370,6 +370,75 @@ GRID_OPS = tuple(
 )
 
 
+def rand_partition_desc_(rng, n):
+    from vf.gen.frames import rand_partition_desc
+
+    return rand_partition_desc(rng, n, allow_unknown=True)
+
+
+def _keys_for(rng, by, rel):
+    """shuffle / merge / pre-aggregation keys K with the given relation to the grouping keys `by`"""
+    rest = [k for k in PRE_KEYS if k not in by]
+    if rel == "equal":
+        return list(by)
+    if rel == "superset":
+        return list(by) + rest[:rng.randint(1, len(rest))] if rest else None
+    if rel == "subset":
+        return rng.sample(by, rng.randint(1, len(by) - 1)) if len(by) > 1 else None
+    if rel == "overlap":
+        return [rng.choice(by)] + [rng.choice(rest)] if rest and len(by) > 1 else None
+    return [rng.choice(rest)] if rest else None           # disjoint
+
+
+PRE_GRID = (
+    {"kind": "shuffle", "keys": ["a", "h"]}, {"kind": "shuffle", "keys": ["a"]}, {"kind": "shuffle", "keys": ["a", "h", "g"]},
+    {"kind": "shuffle", "keys": ["h", "g"]}, {"kind": "shuffle", "keys": ["g"]}, {"kind": "shuffle", "keys": ["a", "h"], "method": "disk"},
+    {"kind": "agg", "keys": ["a", "h"], "split_out": 3, "fn": "sum"}, {"kind": "agg", "keys": ["a", "h", "g"], "split_out": 2, "fn": "max"},
+    {"kind": "merge", "keys": ["a", "h"]}, {"kind": "merge", "keys": ["a"]},
+    {"kind": "shuffle+repartition", "keys": ["a", "h"], "n": 2}, {"kind": "set_index", "keys": ["g"]},
+    {"kind": "repartition", "keys": [], "n": 3},
+)
+_SHUF = ("shuffle_method",)
+PRE_OPS = tuple(
+    [({"kind": "single", "fn": fn, "sel": sel}, _FULL) for fn in ("sum", "mean", "var", "max", "count", "median")
+     for sel in ("c", ["c", "d"], "keepK", None)]
+    + [({"kind": "single", "fn": "size", "sel": None}, _FULL), ({"kind": "single", "fn": "nunique", "sel": "d"}, _FULL),
+       ({"kind": "value_counts", "sel": "d"}, _FULL),
+       ({"kind": "agg", "form": "list", "sel": ["c", "d"], "spec": ["sum", "max"]}, _FULL),
+       ({"kind": "agg", "form": "dictlist", "sel": None, "spec": {"c": "sum", "d": ["min", "mean"]}}, _FULL),
+       ({"kind": "agg", "form": "named", "sel": None, "spec": {"x": ["c", "sum"], "y": ["d", "count"]}}, _FULL),
+       ({"kind": "apply", "func": "share", "sel": None}, _SHUF), ({"kind": "apply", "func": "span", "sel": None}, _SHUF),
+       ({"kind": "apply", "func": "share", "sel": "keepK+d"}, _SHUF),
+       ({"kind": "apply", "func": "s-demean", "sel": "c"}, _SHUF), ({"kind": "apply", "func": "s-span", "sel": "d"}, _SHUF),
+       ({"kind": "transform", "func": "mean", "sel": None}, _SHUF), ({"kind": "transform", "func": "mean", "sel": "c"}, _SHUF),
+       ({"kind": "transform", "func": "sum", "sel": "keepK"}, _SHUF), ({"kind": "transform", "func": "demean", "sel": "d"}, _SHUF),
+       ({"kind": "shift", "periods": 1, "sel": "d"}, _SHUF), ({"kind": "shift", "periods": 1, "sel": None}, _SHUF),
+       ({"kind": "ffill", "sel": "c"}, _SHUF), ({"kind": "bfill", "sel": None}, _SHUF),
+       ({"kind": "cum", "fn": "cumsum", "sel": "d"}, ()), ({"kind": "cum", "fn": "cumsum", "sel": None}, ()),
+       ({"kind": "cum", "fn": "cumprod", "sel": ["d", "c"]}, ()), ({"kind": "cum", "fn": "cumcount", "sel": None}, ())]
+)
+
+
+def _pre_op(op, pre, by):
+    """resolve the selection placeholders: keepK = a list selection that keeps the shuffle columns which are not
+    grouping keys (so the frame still carries all columns of the earlier shuffle when it is grouped)"""
+    sel = op.get("sel")
+    K = pre.get("keys") or []
+    if pre["kind"] == "set_index" and op["kind"] in ("cum", "shift", "ffill", "bfill"):
+        # set_index is not stable among equal index values and the optimizer may plan it differently for compute(X) and
+        # for the groupby on X: the row order of X is not defined, so operations that depend on it have no reference
+        return None
+    extra = [k for k in K if k not in by]
+    if pre["kind"] == "set_index":
+        extra = []
+    if sel in ("keepK", "keepK+d"):
+        if not extra:
+            return None
+        sel = extra + (["c", "d"] if sel == "keepK+d" else ["c"])
+    op = dict(op, sel=sel)
+    return op
+
+
 def _exh_op(fn):
     if fn == "size":
         return {"kind": "single", "fn": "size", "sel": None}
@@ -429,6 +498,65 @@ def cases(tier, seed):
                            "op": op, "akw": akw}
                     if not allow:
                         break
+    # ---- complete sub-space C: pre-step grid = {steps that leave partitioning knowledge on the frame} x {blockwise
+    #      step after it} x {every groupby op family, whole-frame / column-selected / selection keeping the shuffle columns}
+    quick_ops = {("single", "sum"), ("single", "median"), ("single", "size"), ("single", "nunique"), ("value_counts", None),
+                 ("agg", "list"), ("agg", "named"), ("apply", "share"), ("apply", "s-demean"), ("transform", "mean"),
+                 ("transform", "sum"), ("shift", None), ("ffill", None), ("cum", "cumsum"), ("cum", "cumcount")}
+    for pre in PRE_GRID:
+        for then in (None, "assign", "filter", "assign-key") if tier == "thorough" else (None, "filter", "assign-key"):
+            if then == "assign-key" and (not pre.get("keys") or pre["kind"] == "set_index"):
+                continue
+            for by in (["a"], ["a", "h"]):
+                if pre["kind"] == "set_index" and pre["keys"][0] in by and then == "assign-key":
+                    continue
+                for op, allow in PRE_OPS:
+                    if tier != "thorough" and (op["kind"], op.get("fn") or op.get("form") or op.get("func")) not in quick_ops:
+                        continue
+                    op = _pre_op(op, pre, by)
+                    if op is None:
+                        continue
+                    yield {"space": "exhaustive", "fseed": 3840, "nrows": 40, "index": "range", "groups": "few", "nakey": False,
+                           "part": {"how": "npartitions", "n": 4}, "by": by, "bylist": False, "gkw": {}, "op": op, "akw": {},
+                           "pre": dict(pre, **({"then": then} if then else {}))}
+    # ---- random pre-step cases
+    kp = 500 if tier == "quick" else 12000
+    rp = random.Random(seed * 7919 + 3838)
+    for _ in range(kp):
+        by = rp.choice((["a"], ["h"], ["g"], ["a", "h"], ["a", "g"], ["h", "g"], ["a", "h", "g"]))
+        rel = rp.choice(("superset", "superset", "equal", "subset", "overlap", "disjoint"))
+        K = _keys_for(rp, by, rel)
+        kind = rp.choice(("shuffle", "shuffle", "agg", "merge", "shuffle+repartition", "set_index", "repartition"))
+        if K is None and kind not in ("repartition",):
+            continue
+        pre = {"kind": kind, "keys": K, "method": rp.choice(("tasks", "tasks", "disk"))}
+        if kind == "shuffle" and rp.random() < 0.4:
+            pre["npartitions"] = rp.randint(2, 6)
+        if kind == "agg":
+            pre.update(split_out=rp.choice((2, 3, True)), fn=rp.choice(("sum", "max", "min")))
+        if kind in ("repartition", "shuffle+repartition"):
+            pre["n"] = rp.randint(1, 6)
+        if kind == "repartition":
+            pre["keys"] = []
+        if kind == "set_index":
+            pre["keys"] = K[:1]
+        then = rp.choice((None, None, "assign", "filter", "assign-key"))
+        if then and not (then == "assign-key" and (not pre["keys"] or kind == "set_index")):
+            pre["then"] = then
+        op, allow = rp.choice(PRE_OPS)
+        op = _pre_op(op, pre, by)
+        if op is None:
+            continue
+        nrows = rp.randint(8, 80)
+        akw = {}
+        if "shuffle_method" in allow and rp.random() < 0.5:
+            akw["shuffle_method"] = rp.choice(("tasks", "disk"))
+        if "split_out" in allow and rp.random() < 0.3:
+            akw["split_out"] = rp.choice((2, 3))
+        gkw = {"sort": rp.choice((True, False))} if rp.random() < 0.2 else {}
+        yield {"fseed": rp.randrange(2 ** 31), "nrows": nrows, "index": rp.choice(("range", "sorted", "unsorted", "dups")),
+               "groups": "few", "nakey": False, "part": rand_partition_desc_(rp, nrows), "by": by, "bylist": False,
+               "gkw": gkw, "op": op, "akw": akw, "pre": pre}
     # ---- random ------------------------------------------------------------------------------------
     k = 2400 if tier == "quick" else 60000
     from vf.gen.frames import INDEX_KINDS, rand_partition_desc
@@ -565,13 +693,18 @@ def _keys(df, case):
 
 
 PRE_KEYS = ("a", "h", "g")
+_PARTLEN = []
 
 
-def _pre(x, pre, pdf0):
+def _pre(x, pre, pdf0, deterministic=False):
     """the step(s) in front of the groupby, applied to the dask frame: they leave the frame with (or without)
     knowledge about how its rows are distributed over the partitions"""
     dd = frames_setup()
     kind, K = pre["kind"], pre.get("keys") or []
+    if deterministic:
+        # the reference is pandas on compute(X); an operation that depends on the row order needs X to come out in the
+        # same order in both computations, which the disk shuffle does not promise
+        pre = dict(pre, method="tasks")
     if kind in ("shuffle", "shuffle+repartition"):
         x = x.shuffle(on=K, shuffle_method=pre.get("method", "tasks"), **({"npartitions": pre["npartitions"]} if pre.get("npartitions") else {}))
         if kind == "shuffle+repartition":
@@ -585,7 +718,7 @@ def _pre(x, pre, pdf0):
         x = x.merge(dd.from_pandas(other, npartitions=2), on=K, how="inner", shuffle_method=pre.get("method", "tasks"),
                     broadcast=False)
     elif kind == "set_index":
-        x = x.set_index(K[0])
+        x = x.set_index(K[0], shuffle_method=pre.get("method", "tasks"))
     elif kind == "repartition":
         x = x.repartition(npartitions=pre["n"])
     else:
@@ -685,7 +818,7 @@ def _keysorted(x):
         df = x.copy()
     df.columns = ["__c%d" % i for i in range(df.shape[1])]
     if isinstance(df.index, pd.MultiIndex):
-        idx = df.index.to_frame(index=False)
+        idx = df.index.to_frame(index=False, allow_duplicates=True)
         idx.columns = ["__i%d" % i for i in range(idx.shape[1])]
     else:
         idx = pd.DataFrame({"__i0": np.asarray(df.index, dtype=object) if isinstance(df.index.dtype, pd.CategoricalDtype)
@@ -706,7 +839,8 @@ def _plain_index(idx):
     import pandas as pd
 
     if isinstance(idx, pd.MultiIndex):
-        f = idx.to_frame(index=False)
+        f = idx.to_frame(index=False, allow_duplicates=True)
+        f.columns = range(f.shape[1])
         for c in f.columns:
             if isinstance(f[c].dtype, pd.CategoricalDtype):
                 f[c] = f[c].astype(object)
@@ -720,7 +854,7 @@ def _key_frame(idx, nkeys):
     import pandas as pd
 
     if isinstance(idx, pd.MultiIndex):
-        f = idx.to_frame(index=False).iloc[:, :nkeys]
+        f = idx.to_frame(index=False, allow_duplicates=True).iloc[:, :nkeys]
     else:
         f = pd.DataFrame({0: idx})
     f.columns = range(f.shape[1])
@@ -837,6 +971,8 @@ def _features(case, pdf, ddf, plan):
     f["datetime-key"] = "t" in by
     f["neg-zero-key"] = _neg_zero_key(pdf, case)
     f["npartitions"] = ddf.npartitions
+    f["pre-step"] = "%s&keys-relation:%s" % (case["pre"]["kind"], _relation(case["pre"].get("keys") or [], by)) \
+        if case.get("pre") else None
     f["empty-partition"] = any(n == 0 for n in _part_lengths(case, len(pdf), ddf))
     f["known-divisions"] = bool(ddf.known_divisions)
     f["index-increasing-unique"] = bool(pdf.index.is_monotonic_increasing and pdf.index.is_unique)
@@ -1257,7 +1393,7 @@ def _label(it):
 def _group(fam):
     if fam in ("nunique", "median", "cov-corr", "value_counts", "cum"):
         return fam
-    if fam in ("transform", "shift", "ffill-bfill", "transform-like"):
+    if fam in ("transform", "shift", "ffill-bfill", "transform-like", "apply"):
         return "transform-like"
     return "agg-any"
 
@@ -1269,7 +1405,8 @@ def _symptom_class(it):
     return "names" if s in ("name", "index-names") else s
 
 
-ABLATIONS = ("cat-key&observed=False", "key-has-0.0-and-negative-0.0", "na-keys&dropna=False", "na-keys&dropna!=False")
+ABLATIONS = ("cat-key&observed=False", "key-has-0.0-and-negative-0.0", "na-keys&dropna=False", "na-keys&dropna!=False",
+             "pre-step-partitioning-knowledge")
 
 
 def _ablated(case, feats, feature):
@@ -1285,6 +1422,8 @@ def _ablated(case, feats, feature):
         return dict(case, gkw=gkw)
     if feature == "na-keys&dropna!=False" and feats.get("na-keys") and feats.get("dropna") is not False:
         return dict(case, dropnakeyrows=True)
+    if feature == "pre-step-partitioning-knowledge" and case.get("pre") and not case.get("noknowledge"):
+        return dict(case, noknowledge=True)      # the same partitions, materialised
     return None
 
 
@@ -1332,7 +1471,11 @@ def _canonicalise(case, feats, items):
         if not gone:
             continue
         first = gone[0]
-        merged = dict(first, label="%s:%s" % (_group(first["fam"]), feature), canonical=True,
+        name = feature
+        if feature == "pre-step-partitioning-knowledge":
+            # which step left the knowledge does not matter for the mechanism, the relation of its keys to the group keys does
+            name = "%s&keys-relation:%s" % (feature, _relation(case["pre"].get("keys") or [], case["by"]))
+        merged = dict(first, label="%s:%s" % (_group(first["fam"]), name), canonical=True,
                       msg="%s  [caused by %s: the same case without it has none of %s]"
                           % (first["msg"], feature, sorted({_label(g) for g in gone})))
         items = [it for it in items if it not in gone] + [merged]
@@ -1384,6 +1527,31 @@ def _run(case, ctx):
     ctx.op("op:" + name)
     if op["kind"] == "agg":
         ctx.op("aggform:" + op["form"])
+    pre = case.get("pre")
+    pre_ddf = None
+    if pre:
+        # ---- pre-step facet: the grouped frame X is the result of earlier dask steps (shuffle, groupby-agg +
+        # reset_index, hash merge, set_index, repartition, then maybe a blockwise step).  Reference = pandas on
+        # compute(X): the property is about the groupby, the steps before it belong to other properties; what
+        # matters here is the partitioning knowledge they leave on X.
+        import dask
+
+        tag = "pre-step:%s&keys-relation:%s" % (pre["kind"], _relation(pre.get("keys") or [], case["by"]))
+        try:
+            ddf0 = frames.partition(pdf, case["part"])
+            pre_ddf = _pre(ddf0, pre, pdf, deterministic=op["kind"] in ("cum", "shift", "ffill", "bfill"))
+            parts = dask.compute(*[pre_ddf.partitions[i] for i in range(pre_ddf.npartitions)], scheduler="sync")
+            pdf = pd.concat(parts) if parts else pre_ddf._meta
+            _PARTLEN[:] = [len(x) for x in parts]
+        except NotImplementedError as ex:
+            ctx.unsupported("pre-step %s: %s" % (pre["kind"], ex))
+            return
+        except Exception as ex:  # noqa: BLE001
+            ctx.exception(ex, "pre-step[%s]" % pre["kind"], "other", False, pre=pre)
+            return
+        ctx.count(tag)
+        if pre.get("then"):
+            ctx.count("pre-step-then:" + pre["then"])
     # ---- reference first: pandas refusing the program means the property does not speak ------------
     try:
         expected = _apply(pdf, case, False)
@@ -1394,7 +1562,14 @@ def _run(case, ctx):
     if op["kind"] in ("transform", "shift", "apply"):
         meta = expected.iloc[:0] if isinstance(expected, pd.DataFrame) else (expected.name, expected.dtype)
     try:
-        ddf = frames.partition(pdf, case["part"])
+        if pre_ddf is None:
+            ddf = frames.partition(pdf, case["part"])
+        elif case.get("noknowledge"):
+            # ablation: the same partitions, materialised, without any knowledge about how they were produced
+            dd = frames.setup()
+            ddf = dd.from_map(frames._ident, list(parts), meta=pre_ddf._meta)
+        else:
+            ddf = pre_ddf
     except Exception as ex:  # noqa: BLE001
         ctx.exception(ex, "partition", "other", False)
         return
@@ -1460,6 +1635,8 @@ def _run(case, ctx):
 
 
 def _part_lengths(case, n, ddf):
+    if case.get("pre"):
+        return list(_PARTLEN) or [1]
     d = case["part"]
     if d.get("how") in ("slices", "delayed"):
         cuts = sorted(min(max(0, c), n) for c in d.get("cuts", []))
@@ -1474,6 +1651,11 @@ RULE = ("cases = (frame seed/rows/index kind, partitioning incl. empty partition
         "an empty one, keys 'a' and 'n'(dropna=False): 18 operations x split_out{None,1,2,3,True} x shuffle_method{None,"
         "tasks,disk} x sort{None,True,False}; (B) edge grid: 41 operation forms x 12 key kinds x {24-row frame with empty "
         "first and middle partition, empty frame} x {no keywords, split_out=2+tasks[, split_every=8 for median]}; then "
+        "(C) pre-step grid: 13 steps that leave (or drop) partitioning knowledge on the frame [shuffle on keys that are a "
+        "superset/equal/subset/overlap/disjoint of the group keys, groupby-agg(split_out>1)+reset_index, hash merge, "
+        "shuffle+repartition, set_index, repartition] x {nothing, filter, overwrite a shuffle column[, assign]} x group keys "
+        "['a'], ['a','h'] x every groupby op family in whole-frame / selected / selection-keeping-the-shuffle-columns form, "
+        "reference = pandas on compute(frame after the pre-step); then seeded random pre-step cases; then "
         "seeded random cases (frames.rand_frame(cols='wide') + many-groups key 'g', 0..60 rows, all index kinds, random "
         "partition descriptions). non-trivial = >=2 rows, >=2 result rows, >=2 partitions; distinct = distinct (program, "
         "frame seed, rows, partitioning)")
@@ -1483,12 +1665,20 @@ ASSUMPTIONS = [
     "scheduler='sync'; shuffle_method None resolves to the disk shuffle here; the distributed/p2p shuffle is not reachable",
     "transform/shift get meta= derived from the pandas result (name, dtype / empty frame), as a user would pass it",
 ]
-BUDGET = {"quick": 150, "thorough": 1500}
+BUDGET = {"quick": 240, "thorough": 2400}
 FLOORS = {
-    "quick": {"evaluations": 2600, "distinct_nontrivial": 1800, "max_skipped_fraction": 0.3,
+    "quick": {"evaluations": 3600, "distinct_nontrivial": 2000, "max_skipped_fraction": 0.3,
               "counters": {"compared": 2400, "cmp_ordered": 280, "cmp_keyed_multiset": 2100, "plan_shuffle": 1100,
                            "plan_no_shuffle": 1200, "order_dependent_main": 330, "order_dependent_after_shuffle": 320,
-                           "na_key_cases": 700, "categorical_key_cases": 250, "empty_partition_cases": 1500},
+                           "na_key_cases": 700, "categorical_key_cases": 250, "empty_partition_cases": 1500,
+                           "pre-step:shuffle&keys-relation:superset": 150, "pre-step:shuffle&keys-relation:equal": 90,
+                           "pre-step:shuffle&keys-relation:subset": 30, "pre-step:shuffle&keys-relation:overlap": 35,
+                           "pre-step:shuffle&keys-relation:disjoint": 100, "pre-step:agg&keys-relation:superset": 100,
+                           "pre-step:agg&keys-relation:equal": 30, "pre-step:merge&keys-relation:superset": 40,
+                           "pre-step:merge&keys-relation:equal": 60, "pre-step:set_index&keys-relation:disjoint": 30,
+                           "pre-step:repartition&keys-relation:none": 60,
+                           "pre-step:shuffle+repartition&keys-relation:superset": 40, "pre-step-then:filter": 290,
+                           "pre-step-then:assign-key": 240},
               "sets": {"programs": 2000, "plans": 120}},
     "thorough": {"evaluations": 30000, "distinct_nontrivial": 22000, "max_skipped_fraction": 0.3,
                  "counters": {"compared": 26000, "cmp_ordered": 4400, "cmp_keyed_multiset": 22000, "plan_shuffle": 12000,
@@ -1499,8 +1689,10 @@ FLOORS = {
 EXHAUSTIVE_SPACE = {
     "quick": "(A) 18 operations x split_out{None,1,2,3,True} x shuffle_method{None,tasks,disk} x sort{None,True,False} on one "
              "fixed frame for keys 'a' and 'n'(dropna=False) [1620 programs]; (B) edge grid 41 operation forms x 12 key kinds x "
-             "{frame with empty partitions, empty frame} x {plain, split_out=2+tasks[, split_every=8]} [1896 programs]",
-    "thorough": "as quick, (A) additionally for keys ['a','b'], 'k'(observed=False), 'n', Series a%2 [4860 programs]",
+             "{frame with empty partitions, empty frame} x {plain, split_out=2+tasks[, split_every=8]} [1896 programs]; (C) pre-step grid "
+             "13 partitioning-knowledge steps x {none, filter, overwrite shuffle column} x 2 group-key sets x 23 op forms [1700 programs]",
+    "thorough": "as quick, (A) additionally for keys ['a','b'], 'k'(observed=False), 'n', Series a%2 [4860 programs]; (C) with all 47 "
+                "op forms and the assign step [~4400 programs]",
 }
 CASE_TIMEOUT = 120
 CLAIM = ("Every groupby program of the generated stream (two complete finite products of operation x key kind x setting "
